@@ -975,7 +975,9 @@ def build(prog):
             elif w[0] == "enable_multi":
                 e = EnableInserter({d: sigs[c] for d, c in w[1]})(e)
             else:
-                e = DomainRenamer(dict(w[1]))(e)
+                dmap = dict(w[1])
+                e = DomainRenamer(dmap)(e)
+                dmap.clear()          # (the caller's dictionary is the caller's: what happens to it afterwards is of no concern)
         return e
 
     B.top = wrap(prog["top"])
